@@ -143,7 +143,7 @@ class BitField(object):
 
         # Check for fields which don't fit in the bit field
         if (start_at is not None and
-            (0 <= start_at >= self.length or
+            (start_at < 0 or start_at >= self.length or
              start_at + (length or 1) > self.length)):
             raise ValueError(
                 "Field doesn't fit within {}-bit bit field.".format(
